@@ -145,6 +145,10 @@ def matrix_complex_cases(rng, m, ctx):
     N = int(rng.integers(2, 4))
     a = make_corr(rng, mask, N=N)
     pa = pcorr(a)
+    # elementary functions of a matrix correlator: a timeslice with any entry outside the domain is undefined as a whole
+    for fn in ('arcsin', 'arccosh', 'arctanh', 'log', 'sqrt', 'exp'):
+        r = _call(lambda: getattr(np, fn)(a))
+        cases.append({'id': '%s-mfn-%s-N%d' % (m['id'], fn, N), 'ev': 'func', 'a': pa, 'fn': fn, 'n': NS, 'res': pres(r)})
     for op in ('add', 'sub', 'mul', 'div'):
         for kind in ('corr', 'corr1', 'obs', 'float', 'cobs'):
             order = str(rng.choice(['left', 'right']))
@@ -237,7 +241,7 @@ def index_cases(rng, m, ctx, full):
     for parity in (1, -1):
         add('T_symmetry', {'partner': pcorr(b), 'parity': parity}, lambda: a.T_symmetry(b, parity),
             extra_before=lambda: [pcorr(b)], extra_after=lambda: [pcorr(b)])
-    for N, per in ([(1, False), (2, False), (2, True), (3, False), (3, True)] if full else [(int(rng.integers(1, 4)), bool(rng.random() < 0.5))]):
+    for N, per in ([(1, False), (2, False), (2, True), (3, False), (3, True), (4, True), (5, True)] if full else [(int(rng.integers(1, 6)), bool(rng.random() < 0.6))]):
         add('Hankel', {'N': N, 'periodic': per}, lambda: a.Hankel(N, periodic=per))
     # matrix-valued methods
     N = int(rng.integers(2, 4))
@@ -268,6 +272,12 @@ def index_cases(rng, m, ctx, full):
     s1 = _call(lambda: a.__repr__(pr))
     s2 = _call(lambda: a.__repr__(pr))
     cases.append({'id': '%s-ix-repr-frame' % m['id'], 'ev': 'frame', 'before': [pa, {'k': 'range', 'v': pr0}], 'after': [pcorr(a), {'k': 'range', 'v': [int(x) for x in pr]}],
+                  'first': {'k': 'str', 's': s1 if isinstance(s1, str) else 'exc'}, 'second': {'k': 'str', 's': s2 if isinstance(s2, str) else 'exc'}})
+    # ... whatever kind of sequence the range is handed in as
+    pra = np.array([0, max(0, T - 2)])
+    s1 = _call(lambda: a.__repr__(pra))
+    s2 = _call(lambda: a.__repr__(pra))
+    cases.append({'id': '%s-ix-repr-frame-ndarray' % m['id'], 'ev': 'frame', 'before': [pa, {'k': 'range', 'v': pr0}], 'after': [pcorr(a), {'k': 'range', 'v': [int(x) for x in pra]}],
                   'first': {'k': 'str', 's': s1 if isinstance(s1, str) else 'exc'}, 'second': {'k': 'str', 's': s2 if isinstance(s2, str) else 'exc'}})
     return cases
 
